@@ -60,14 +60,17 @@ def chainRules (rules : List Rule) : List (Nat × Nat) :=
 def chainStep (cr : List (Nat × Nat)) (s : List Nat) : List Nat :=
   cr.foldl (fun acc p => if acc.contains p.1 && !acc.contains p.2 then acc ++ [p.2] else acc) s
 
-def iter {α} (f : α → α) : Nat → α → α
-  | 0, a => a
-  | n + 1, a => iter f n (f a)
+/-- sweep until nothing is added (at most one sweep per chain rule) -/
+def closeLoop (cr : List (Nat × Nat)) : Nat → List Nat → List Nat → List Nat
+  | 0, s, _ => s
+  | fuel + 1, s, s' => if s'.length == s.length then s else closeLoop cr fuel s' (chainStep cr s')
+
+def closeCR (cr : List (Nat × Nat)) (nt : Nat) : List Nat :=
+  closeLoop cr cr.length [nt] (chainStep cr [nt])
 
 /-- every non-terminal marked by `mark_tree` starting from rule non-terminal `nt` -/
 def close (rules : List Rule) (nt : Nat) : List Nat :=
-  let cr := chainRules rules
-  iter (chainStep cr) cr.length [nt]
+  closeCR (chainRules rules) nt
 
 /-! ### matching (`tree_terminal_equal` + goals of the kids) -/
 
@@ -108,6 +111,7 @@ structure Sym where
   name : Nat
   args : List Nat
   res : Nat
+  deriving DecidableEq
 
 def lookupSym (sig : List Sym) (n : Nat) : Option Sym := sig.find? (fun f => f.name == n)
 
@@ -139,24 +143,52 @@ def flatFor (g : List (Nat × List Nat)) : List Pat → List Nat → Bool
   | .nt n :: ps, s :: ss => (guarOf g s).contains n && flatFor g ps ss
   | _, _ => false
 
-def ruleWitness (g : List (Nat × List Nat)) (rules : List Rule) (f : Sym) (nt : Nat) (r : Rule) : Bool :=
+/-- `r` is an unconditional rule `_ -> f(c₁,…,cₙ)` with plain guaranteed non-terminal children -/
+def flatRule (g : List (Nat × List Nat)) (f : Sym) (r : Rule) : Bool :=
   !r.cond &&
   (match r.pat with
    | .term nm ps => nm == f.name && flatFor g ps f.args
-   | .nt _ => false) &&
-  (close rules r.nt).contains nt
+   | .nt _ => false)
 
+def subsetB (l c : List Nat) : Bool := l.all c.contains
+
+/-- a chain-closure table `ct` (non-terminal ↦ some of the non-terminals its closure contains) is sound -/
+def ctSound (rules : List Rule) (ct : List (Nat × List Nat)) : Bool :=
+  ct.all fun p => subsetB p.2 (close rules p.1)
+
+/-- skip rules until the one numbered `w` (rules are numbered in list order) -/
+def dropTo (w : Nat) : List Rule → List Rule
+  | [] => []
+  | r :: rs => if r.nr == w then r :: rs else dropTo w rs
+
+/-- `r` alone witnesses symbol `f`: flat, unconditional, and every non-terminal guaranteed for the
+result sort is in the (tabulated) chain closure of `r.nt` -/
+def witnessOk (g ct : List (Nat × List Nat)) (f : Sym) (r : Rule) : Bool :=
+  flatRule g f r && subsetB (guarOf g f.res) (guarOf ct r.nt)
+
+/-- certificate check in one merge pass: `wit` gives, per symbol of `sig` (same order), the number of
+its witness rule; the numbers must be non-decreasing along `sig` -/
+def checkW (g ct : List (Nat × List Nat)) : List Rule → List Sym → List Nat → Bool
+  | _, [], [] => true
+  | rs, f :: fs, w :: ws =>
+      match dropTo w rs with
+      | r :: rs' => witnessOk g ct f r && checkW g ct (r :: rs') fs ws
+      | [] => false
+  | _, _, _ => false
+
+/-- **The decidable sufficient condition.**  For every symbol `f : s₁ … sₙ → s` of the alphabet there is
+(the certificate `wit` names it) an UNCONDITIONAL rule `nt' -> f(c₁,…,cₙ)` of `rules` whose children are
+plain non-terminals `cᵢ` guaranteed for sort `sᵢ` (`cᵢ ∈ g sᵢ`), and every non-terminal guaranteed for
+the result sort (`g s`) is in the chain-rule closure of `nt'`: `g s ⊆ ct nt'`, where the table `ct` is
+checked against the executable closure `close` (`ctSound`). -/
+def premise (rules : List Rule) (sig : List Sym) (g ct : List (Nat × List Nat)) (wit : List Nat) : Bool :=
+  ctSound rules ct && checkW g ct rules sig wit
+
+/-- certificate-free version (searches the witness): used by the driver to recompute, independently of
+the translator, the symbols that have no witness -/
 def symOk (g : List (Nat × List Nat)) (rules : List Rule) (f : Sym) : Bool :=
-  (guarOf g f.res).all fun nt => rules.any (ruleWitness g rules f nt)
+  rules.any fun r => flatRule g f r && subsetB (guarOf g f.res) (close rules r.nt)
 
-/-- For every symbol `f : s₁ … sₙ → s` of the alphabet and every non-terminal `nt`
-guaranteed for sort `s` there is an UNCONDITIONAL rule `nt' -> f(c₁,…,cₙ)` whose
-children are plain non-terminals `cᵢ` guaranteed for sort `sᵢ`, and `nt` is in
-the chain-rule closure of `nt'`. -/
-def premise (rules : List Rule) (sig : List Sym) (g : List (Nat × List Nat)) : Bool :=
-  sig.all (symOk g rules)
-
-/-- the symbols for which the premise fails (used by the driver to explain a failure) -/
 def failing (rules : List Rule) (sig : List Sym) (g : List (Nat × List Nat)) : List Nat :=
   (sig.filter (fun f => !symOk g rules f)).map (·.name)
 
